@@ -57,8 +57,8 @@ import (
 
 const blkNum = uint32(5)
 
-// C41_STRICT_EMPTY=1 turns the observation "commitDone says forEmpty without >N−1−C distinct empty voters" into a violation.
-var strictEmpty = os.Getenv("C41_STRICT_EMPTY") == "1"
+// "commitDone says forEmpty without >N−1−C distinct empty voters" is a violation (a participant counted twice); C41_STRICT_EMPTY=0 demotes it to an observation.
+var strictEmpty = os.Getenv("C41_STRICT_EMPTY") != "0"
 
 type vote struct {
 	e, p  uint32
@@ -768,7 +768,7 @@ func explore(r *ev.Run, w *world, depth int, cn *counters) mc.Stats {
 					return det(map[string]any{"proposer": p, "for_empty": empty, "distinct_empty_voters": keys(ref.anyEm), "needed_more_than": T2})
 				}
 				cn.hit("commit_done_for_empty_without_empty_quorum", d)
-				if strictEmpty { // stricter reading (the empty flag of a commit decision needs its own distinct quorum); off by default
+				if strictEmpty { // the empty flag of a commit decision needs more than N-1-C DISTINCT empty voters (the code's own threshold)
 					r.Violation("commitDone:for-empty-without-distinct-empty-quorum", d())
 				}
 			}
